@@ -219,6 +219,7 @@ func analyzeGenDoc(g *Gen) any {
 	// one document in eight is outside the domain of C11-C13 (a non-body parameter carrying a schema: loadable, invalid
 	// Swagger): only the correspondence between model and implementation is decided on those
 	ood := g.p(0.125)
+	g.DeepChains = true
 	raw := g.Doc(DocOpts{NoPathsProb: 0.05, NonBodySchema: ood})
 	if ood {
 		g.hit("doc:out-of-domain-stream")
